@@ -125,7 +125,7 @@ var clauseKeywords = map[string]bool{
 	"havoc": true, "calls": true, "nocall": true, "returns": true, "abstract": true, "note": true, "guarantees": true, "defines": true, "touches": true, "assumes": true,
 }
 
-var labelRe = regexp.MustCompile(`^\[([A-Za-z0-9_\-./<>=]+)\]\s*`)
+var labelRe = regexp.MustCompile(`^\[([A-Za-z0-9_\-./<>=:,]+)\]\s*`)
 
 type rawLine struct {
 	indent int
@@ -317,7 +317,7 @@ func (sw *SpecWorld) parseDirective(file, pkg string, d rawLine, body []rawLine)
 			return err
 		}
 		sw.Axioms = append(sw.Axioms, &Axiom{Name: strings.TrimSpace(text[:k]), Expr: e, PkgName: pkg, Text: text})
-	case "lock", "event", "transfer", "lockinv", "protect", "allow", "handoff", "chanvalue":
+	case "lock", "event", "transfer", "lockinv", "protect", "allow", "handoff", "chanvalue", "count":
 		sw.Decls = append(sw.Decls, &Decl{Kind: kw, Text: joinCont(rest, body), PkgName: pkg, File: file, Line: d.line})
 	case "func", "interface", "lemma":
 		c := &Contract{Kind: kw, PkgName: pkg, File: file, Line: d.line, Loops: map[int]*LoopSpec{}, Flags: map[string]string{}}
